@@ -431,8 +431,9 @@ pub fn validate_amount_decimals(amount: f64, currency: &str) -> Result<(), Parse
     let max_decimals = get_currency_decimals(currency);
 
     // Calculate actual decimal places in the amount
-    // Use string representation to avoid floating point precision issues
-    let amount_str = format!("{:.10}", amount); // Format with high precision
+    // The shortest text that reads back as the same value carries exactly the decimals that
+    // were written; a fixed {:.10} shows binary noise (1500000.1 -> 1500000.1000000001).
+    let amount_str = amount.to_string();
     let decimal_places = if let Some(dot_pos) = amount_str.find('.') {
         let after_dot = &amount_str[dot_pos + 1..];
         // Count non-zero digits after decimal point
